@@ -185,6 +185,22 @@ def path_condition(fnode, target, expand=True):
     (or of the function): enclosing ``if`` branches, and the negation of every preceding guard clause (``if c: continue/return/...``)."""
     found = []
 
+    def leave(st):
+        """formula under which control leaves the enclosing block (return / raise / continue / break) inside ``st``"""
+        if isinstance(st, (ast.Return, ast.Raise, ast.Continue, ast.Break)):
+            return ('const', True)
+        if isinstance(st, ast.If):
+            c = formula(st.test, fnode if expand else None)
+            a = Or(*[leave(x) for x in st.body]) if st.body else ('const', False)
+            b = Or(*[leave(x) for x in st.orelse]) if st.orelse else ('const', False)
+            parts = []
+            if a != ('const', False):
+                parts.append(c if a == ('const', True) else And(c, a))
+            if b != ('const', False):
+                parts.append(Not(c) if b == ('const', True) else And(Not(c), b))
+            return Or(*parts) if parts else ('const', False)
+        return ('const', False)
+
     def walk(stmts, cond):
         cur = cond
         for st in stmts:
@@ -200,6 +216,12 @@ def path_condition(fnode, target, expand=True):
                     cur = And(cur, Not(c))
                 elif else_t and not body_t and st.orelse:
                     cur = And(cur, c)
+                elif not (body_t and else_t):
+                    # neither arm ends the block as a whole, but something nested in them may leave it
+                    # (`if a: if b: return`): what follows runs only when that did not happen
+                    lv = leave(st)
+                    if lv != ('const', False):
+                        cur = And(cur, Not(lv))
             elif isinstance(st, (ast.For, ast.While, ast.AsyncFor)):
                 # conditions do not carry into / across iterations
                 if walk(st.body, ('const', True)) or walk(st.orelse, cur):
